@@ -1163,6 +1163,51 @@ func probeStaleFsf() *failure {
 	return nil
 }
 
+// probeBigUniform: more than 1024 samples of equal duration, size and flags and zero composition offsets, with trun
+// optimisation: the round trip must hold (finding C05-F7: DecodeTrun refuses the optimised trun)
+func probeBigUniform() *failure {
+	f, _ := mp4.CreateFragment(1, 1)
+	for i := 0; i < 1025; i++ {
+		f.AddFullSample(mp4.FullSample{Sample: mp4.Sample{Flags: 0x1010000, Dur: 10, Size: 1}, DecodeTime: uint64(10 * i), Data: []byte{byte(i)}})
+	}
+	b, c := encodeFrag(f, true, false)
+	if c != 'o' {
+		return &failure{"Fragment.Encode", "error", "1025 equal samples do not encode"}
+	}
+	df, dc := decodeAll(b, false)
+	if dc != 'o' {
+		return &failure{"TrafBox.OptimizeTfhdTrun", "optimized-trun-undecodable", "CreateFragment(1,1); 1025 x AddFullSample(flags 0x1010000, dur 10, size 1, cto 0); OptimizeTrun; Encode -> trun flags 0x1 (no per-sample field); DecodeFile fails: trun: sampleCount 1025 is big but no sample data present"}
+	}
+	g, gc := getFull(df.Segments[0].Fragments[0], nil)
+	if gc != 'o' || len(g) != 1025 {
+		return &failure{"roundtrip", "sample-count", "1025 equal samples are not read back"}
+	}
+	return nil
+}
+
+// probeMixed: metadata-only and full samples mixed in one fragment (finding C05-F8): the mdat header announces the lazy
+// size only while the full samples' data is written before the caller's data
+func probeMixed() *failure {
+	f, _ := mp4.CreateFragment(1, 1)
+	f.AddSample(mp4.Sample{Flags: 0x1010000, Dur: 10, Size: 2}, 0)
+	f.AddFullSample(mp4.FullSample{Sample: mp4.Sample{Flags: 0x1010000, Dur: 10, Size: 3}, DecodeTime: 10, Data: []byte{7, 8, 9}})
+	b, c := encodeFrag(f, false, false)
+	if c != 'o' {
+		return &failure{"Fragment.Encode", "error", "mixed fragment does not encode"}
+	}
+	b = append(b, 1, 2) // the caller writes the data of the metadata-only sample
+	desc := "CreateFragment(1,1); AddSample(size 2) (data 0102 written by the caller after Encode); AddFullSample(size 3, data 070809); Encode writes an mdat header announcing 2 payload bytes followed by 070809; "
+	df, dc := decodeAll(b, false)
+	if dc != 'o' {
+		return &failure{"Fragment.AddFullSample", "mixed-data-modes", desc + "DecodeFile fails on the bytes that follow the announced payload"}
+	}
+	g, gc := getFull(df.Segments[0].Fragments[0], nil)
+	if gc != 'o' || len(g) != 2 || !bytes.Equal(g[0].Data, []byte{1, 2}) || !bytes.Equal(g[1].Data, []byte{7, 8, 9}) {
+		return &failure{"Fragment.AddFullSample", "mixed-data-modes", desc + fmt.Sprintf("GetFullSamples class %c, samples %s", gc, hfl(g))}
+	}
+	return nil
+}
+
 func cmdSearch(seed uint64, n int, exh int) {
 	r := hx.NewRng(mixSeed(seed, 0x5ea7c4))
 	evals := 0
@@ -1188,6 +1233,14 @@ func cmdSearch(seed uint64, n int, exh int) {
 	evals++
 	if f := probeReencode(); f != nil {
 		fmt.Fprintf(out, "FAIL\t%s\t%s\t%s\t%s\n", f.site, f.class, "probe:reencode (harness/c05/main.go probeReencode)", f.desc)
+	}
+	evals++
+	if f := probeBigUniform(); f != nil {
+		fmt.Fprintf(out, "FAIL\t%s\t%s\t%s\t%s\n", f.site, f.class, "probe:biguniform (harness/c05/main.go probeBigUniform)", f.desc)
+	}
+	evals++
+	if f := probeMixed(); f != nil {
+		fmt.Fprintf(out, "FAIL\t%s\t%s\t%s\t%s\n", f.site, f.class, "probe:mixed (harness/c05/main.go probeMixed)", f.desc)
 	}
 	// probes with metadata-only samples of huge payloads: only the data-offset oracle can be evaluated
 	big := []uint32{0xfffffff0, 0x80000000, 0x7ffffff0, 0x40000000}
@@ -1235,6 +1288,18 @@ func cmdSearch(seed uint64, n int, exh int) {
 func cmdReplay(w string) {
 	if strings.HasPrefix(w, "probe:stalefsf") {
 		if f := probeStaleFsf(); f != nil {
+			fmt.Fprintf(out, "FAIL\t%s\t%s\t%s\t%s\n", f.site, f.class, w, f.desc)
+		} else {
+			fmt.Fprintln(out, "HOLDS")
+		}
+		return
+	}
+	if strings.HasPrefix(w, "probe:biguniform") || strings.HasPrefix(w, "probe:mixed") {
+		f := probeBigUniform()
+		if strings.HasPrefix(w, "probe:mixed") {
+			f = probeMixed()
+		}
+		if f != nil {
 			fmt.Fprintf(out, "FAIL\t%s\t%s\t%s\t%s\n", f.site, f.class, w, f.desc)
 		} else {
 			fmt.Fprintln(out, "HOLDS")
@@ -1523,6 +1588,7 @@ func emitH(id string, sg *Seg, sr *segRun, i int, stats map[string]int) {
 					if p := hx.Try(func() { _ = f.Moof.Encode(&mb) }); p == "" {
 						sb.WriteString("|moof=" + hx.Hex(mb.Bytes()))
 						stats["H.moof-bytes"]++
+						emitM(id, mb.Bytes(), stats)
 					} else {
 						sb.WriteString("|moof=panic")
 					}
@@ -1580,6 +1646,69 @@ func emitH(id string, sg *Seg, sr *segRun, i int, stats map[string]int) {
 		stats["H.multi-trun"]++
 	}
 	fmt.Fprintf(out, "H\t%s\t%s\t%s\t%s\n", id, cfg, opss, sb.String())
+}
+
+// ------------------------------------------------------------------ corr: M cases (moof bytes, partly mutated, through DecodeBoxSR)
+
+var mCtr uint64
+
+// emitM: the bytes of an encoded moof (every second one truncated or with one byte changed: sizes, versions,
+// flags, counts, values) through DecodeBoxSR; observables: outcome class, sequence number, per traf tfhd / tfdt / truns.
+func emitM(id string, moof []byte, stats map[string]int) {
+	mCtr++
+	r := hx.NewRng(mixSeed(mCtr, 0x3005))
+	b := append([]byte{}, moof...)
+	kind := "p"
+	switch r.Intn(4) {
+	case 0:
+		b = b[:r.Intn(len(b))]
+		kind = "t"
+		stats["M.truncated"]++
+	case 1:
+		// never a byte of a box type (all lowercase letters): another type means another body decoder, not modelled
+		i := r.Intn(len(b))
+		if b[i] < 'a' || b[i] > 'z' {
+			b[i] ^= byte(1 << uint(r.Intn(8)))
+			kind = "f"
+			stats["M.byte-changed"]++
+		}
+	}
+	var box mp4.Box
+	var err error
+	p := hx.Try(func() { box, err = mp4.DecodeBoxSR(0, bits.NewFixedSliceReader(b)) })
+	c := cls(p, err)
+	var sb strings.Builder
+	sb.WriteString(string(c))
+	if m, ok := box.(*mp4.MoofBox); ok && c == 'o' {
+		if m.Mfhd != nil {
+			sb.WriteString("|" + hx.HexU(uint64(m.Mfhd.SequenceNumber)))
+		} else {
+			sb.WriteString("|-")
+		}
+		for _, t := range m.Trafs {
+			sb.WriteString("|T")
+			if t.Tfhd != nil {
+				sb.WriteString(tfhdObs(t.Tfhd))
+			} else {
+				sb.WriteString("-")
+			}
+			if t.Tfdt != nil {
+				sb.WriteString(";" + hx.HexU(uint64(t.Tfdt.Version)) + "." + hx.HexU(t.Tfdt.BaseMediaDecodeTime()))
+			} else {
+				sb.WriteString(";-")
+			}
+			for _, tr := range t.Truns {
+				sb.WriteString(";" + trunObs(tr))
+			}
+		}
+		stats["M.decoded"]++
+	} else if c == 'o' {
+		sb.WriteString("|other")
+	}
+	stats["M.cases"]++
+	// kind f (one byte changed): the model's framing is stricter than the SliceReader decoders, which advance by the size
+	// they compute and ignore a child's declared size; there the model may answer error where the code accepts
+	fmt.Fprintf(out, "M\tm%s\t%s\t%s\t%s\n", id, kind, hx.Hex(b), sb.String())
 }
 
 // ------------------------------------------------------------------ corr: G cases (one per segment: the box stream)
